@@ -66,7 +66,7 @@ CHECKS = {
     cat="proof",
     text="Theorems over R (props/C07.v): discrete maximum principle of the 1D cooling step under 2F <= 1 and F(1+Bi) <= 1; the post-nucleation temperature of a supercooled point lies strictly between "
          "its old temperature and T_eq_l; ice fraction = liquidus value with 0 < w_i < water fraction below T_eq_l and 0 at or above it; interior points of the solidification step are convex combinations "
-         "under per-point conditions. PARTIAL: boundary points of the solidification stage are covered by the bounds oracle only. 2D: the cooling step AS SWEPT IN PLACE by the implementation (model/Sn2D.v, tied by one-step correspondence) keeps every temperature between the previous bounds and the shelf temperature under 4a/dr^2+2a/dz^2<=1, dr<=2r_j, Biot numbers in [0,1], no evaporative flux (hypotheses evaluated on every 2D run); 2D solidification by oracle only. Tied to the code by one-step binary64 "
+         "under per-point conditions; the WHOLE 1D solidification step (ghost points included) keeps the bounds under conditions uniform over the admissible ranges, and ANY sequence of cooling / nucleation / solidification steps of the 1D model keeps temperatures in [lo,hi] and ice fractions in [0, water fraction] (C07_1D_run_bounds) under inequalities between the run's constants that the harness evaluates on every 1D run. PARTIAL: VISF lower bound excluded by the property; 2D solidification by the oracle only. 2D: the cooling step AS SWEPT IN PLACE by the implementation (model/Sn2D.v, tied by one-step correspondence) keeps every temperature between the previous bounds and the shelf temperature under 4a/dr^2+2a/dz^2<=1, dr<=2r_j, Biot numbers in [0,1], no evaporative flux (hypotheses evaluated on every 2D run); 2D solidification by oracle only. Tied to the code by one-step binary64 "
          "correspondence (0D and 1D: cooling incl. vacuum window, nucleation, solidification) and by a bounds / phase-equilibrium oracle on every reported value of 0D, 1D and 2D runs.",
     ref="6 C07", technique="Rocq proof over R (convex combinations, quadratic root location) + one-step float correspondence + bounds oracle",
     note=TB % "c07" + "2D bounds by oracle; VISF lower bound not claimed (property excludes it)."),
